@@ -501,6 +501,31 @@ def run_refusal(item, col, tier):
             col.violation(f"C04|accepts-bad-observation|{model}",
                           f"{model} model accepted observation {bad} at observed row {i} of screen {idx}",
                           {"kind": "refusal", "model": model, "screen": idx, "what": "bad", "row": i, "value": bad})
+    # (b') the same refusal on observed subsets of other SIZES (once per model): 1, 2 rows and the row counts around 512 and
+    # 1024, a bad value in the first, the middle and the LAST row (a validation done block by block must cover every row)
+    if idx == 0:
+        drugs = ["a", "b", "c"]
+        for n in (1, 2, 3, 511, 512, 513, 1023, 1024, 1025):
+            big = []
+            for i in range(n):
+                d1, d2 = drugs[i % 3], drugs[(i + 1) % 3]
+                tr = [(d1, 1.0 + (i % 2)), (d2, 1.0)] if i % 4 else [(d1, 1.0 + (i % 2)), (CTL, 0.0)]
+                big.append((f"s{i % 2}", f"p{i % 5}", tr, 0.1 + 0.8 * ((i * 7) % 11) / 11.0, True))
+            for i in sorted({0, n // 2, n - 1}):
+                for bad in (-0.5, float("nan")):
+                    col.evaluations += 1
+                    s2 = make_screen(apply_variant(big, {i: bad}), control=CTL)
+                    m = make_model(model, s2)
+                    try:
+                        m.add_observations(s2.subset_observed())
+                    except Exception:  # noqa: BLE001
+                        col.outcome("refused-bad-value-size", n, i == n - 1)
+                        col.refused += 1
+                        col.nontriv("bad-size", model, n, i, str(bad))
+                        continue
+                    col.violation(f"C04|accepts-bad-observation|{model}",
+                                  f"{model} model accepted observation {bad} at row {i} of a fully observed {n}-row screen",
+                                  {"kind": "refusal", "model": model, "screen": idx, "what": "bad-size", "n": n, "row": i, "value": bad})
     # (c) the same through a file: the screen as Screen.load_h5 returns it, and the train_model command on that file
     tmp = env.scratch_dir("c04r")
     try:
